@@ -100,7 +100,7 @@ def generate_scope(
     code.append(PopScopeNode(resolver))
     # symbols already known while the program is expanded (:= constants) are exported right away, so that
     # .if / .for / := / macro arguments after the scope can use scope.name like any other known symbol.
-    resolver.restore_scope(exports=True)
+    resolver.restore_scope(exports=True, expanding=True)
     return code
 
 
